@@ -191,7 +191,11 @@ def corrupt(rng, line):
 
 GARBAGE_PIECES = JUNK + [b"-@type ", b"-@class ", b"-@field ", b"-@param ", b"-@return ", b"-@alias ", b"-@generic ",
                          b"-@overload ", b"-@vararg ", b"-@enum ", b"string", b"number", b"a.b", b"fun<", b"T", b"K", b"\t", b"\x0b",
-                         b"\r", b"name", b"const ", b"enum ", b"private ", b"protected ", b"{", b"}", b"%", b"\xc3\xa9", b"\xf0\x9f\x98\x80"]
+                         b"\r", b"name", b"const ", b"enum ", b"private ", b"protected ", b"{", b"}", b"%", b"\xc3\xa9", b"\xf0\x9f\x98\x80",
+                         # string constants at the edge of the quoting rules: empty, a single quote character of the
+                         # other kind, nested quotes, unterminated
+                         b"''", b'""', b"'\"'", b"\"'\"", b"'\"\"'", b"\"''\"", b"'\"r\"'", b"'\"", b"\"'", b"'''",
+                         b'"""', b"'\\'"]
 
 
 def garbage_line(rng):
